@@ -446,7 +446,8 @@ impl C17 {
         };
         let status = String::from_utf8_lossy(&typed.stderr).lines().last().unwrap_or("").to_string();
         if status == "status=timeout" || typed.status.code() == Some(124) || piped.status.code() == Some(124) {
-            st.count("case-inconclusive:terminal-watchdog");
+            // (a wall-clock limit decides nothing: inconclusive, and visible as such)
+            st.inconclusive(format!("a session typed at a terminal did not end within the helper's 60 s (piped run: {:?}): {}", piped.status.code(), crate::obs::clip(&session_text(lines), 200)));
             return;
         }
         if !status.starts_with("status=") {
@@ -736,6 +737,8 @@ pub fn directed() -> Vec<(&'static str, Vec<&'static str>)> {
         // tens of thousands of refused lines, each with a literal of its own: they leave nothing behind (the constant pool
         // holds 65 535 entries)
         ("many-refused-lines", many_refused_lines()),
+        // brackets that are not structure: inside strings and comments, and closers without an opener
+        ("brackets-inside-strings-and-comments", vec!["stel s = \":)\"", "1 + 1", "print(\"}\")", "// ) ] }", "stel t = \"(\"", "lengte(t)", "stel u = \"[{\" // ((", "u", ")", "2 + 2", "]", "}", "3 + 3"]),
         ("prompt-commands-are-lines-like-any-other", vec!["stel teller = 0", "stel verhoog = functie() { teller = teller + 1 }", "verhoog()", ":wis", "stel a = 10", "stel b = b", "b()", "a", ":reset", "verhoog()", "teller", ":q"]),
         // (known finding: the code of a line that fails while running stays in the session)
         ("run-time-failures-leave-their-code", vec!["stel a = 1", bulk_statements_failing(), bulk_statements_failing(), "a", "als a == 1 { 2 } anders { 3 }", "a + 1"]),
